@@ -105,3 +105,16 @@ Proof.
   - exact (roundtrip_injective _ _ _ pubkey_roundtrip).
 Qed.
 Print Assumptions C11_export_injective.
+
+Theorem C11_stack_export_injective :
+  (forall a b, (1 <= length a <= Z.to_nat TMCG_MAX_CARDS)%nat -> (1 <= length b <= Z.to_nat TMCG_MAX_CARDS)%nat ->
+               export_vstack a = export_vstack b -> a = b) /\
+  (forall a b, ((1 <= length a <= Z.to_nat TMCG_MAX_CARDS)%nat /\ Forall wf_tcard a) ->
+               ((1 <= length b <= Z.to_nat TMCG_MAX_CARDS)%nat /\ Forall wf_tcard b) ->
+               export_tstack a = export_tstack b -> a = b).
+Proof.
+  split.
+  - exact (roundtrip_injective _ export_vstack (import_vstack []) vstack_roundtrip).
+  - apply (roundtrip_injective _ export_tstack (import_tstack [])). intros x [H1 H2]. exact (tstack_roundtrip x H1 H2).
+Qed.
+Print Assumptions C11_stack_export_injective.
